@@ -26,37 +26,13 @@ theorem no_single_value_assertions : Generated.Effects.singleValueAssertions = [
 
 /-- every dereference through an optional pointer member (AttestedCredentialData, AuthenticatorSelection, Name.Digest, AttestedCertifyInfo) is
     dominated by a nil check or obtained through the attested-data helper; the one unguarded site is a method call whose receiver may be nil
-    by design (`(*AttestedCredentialData).Marshal` checks its receiver) -/
-theorem optional_derefs_reviewed : Generated.Effects.optionalDerefs = [
-  "webauthn.AuthenticatorData.Marshal: authenticatorData.AttestedCredentialData.Marshal [UNGUARDED]",
-  "webauthn.RelyingParty.VerifyRegistrationCeremony: authenticatorData.AttestedCredentialData.CredentialID [nil-checked]",
-  "webauthn.RelyingParty.VerifyRegistrationCeremony: authenticatorData.AttestedCredentialData.CredentialPublicKey [nil-checked]",
-  "webauthn.RelyingParty.VerifyRegistrationCeremony: creationOptions.AuthenticatorSelection.UserVerification [nil-checked]",
-  "webauthn.VerifyAndroidKeyAttestationStatement: authenticatorData.AttestedCredentialData.CredentialPublicKey [attested-helper]",
-  "webauthn.VerifyAppleAttestationStatement: authenticatorData.AttestedCredentialData.CredentialPublicKey [attested-helper]",
-  "webauthn.VerifyFIDOU2FAttestationStatement: authenticatorData.AttestedCredentialData.CredentialID [attested-helper]",
-  "webauthn.VerifyFIDOU2FAttestationStatement: authenticatorData.AttestedCredentialData.CredentialPublicKey [attested-helper]",
-  "webauthn.VerifyTPMAttestationStatement: authenticatorData.AttestedCredentialData.CredentialPublicKey [attested-helper]",
-  "webauthn.verifyPackedAttestationStatementCertificate: authenticatorData.AttestedCredentialData.AAGUID [attested-helper]",
-  "webauthn.verifyPackedAttestationStatementSelfAttestation: authenticatorData.AttestedCredentialData.CredentialPublicKey [attested-helper]",
-  "webauthn.verifyTPMAttestationStatementCertInfo: tpmCertInfo.AttestedCertifyInfo.Name [nil-checked]",
-  "webauthn.verifyTPMAttestationStatementCertInfo: tpmCertInfo.AttestedCertifyInfo.Name.Digest.Alg [nil-checked]",
-  "webauthn.verifyTPMAttestationStatementCertInfo: tpmCertInfo.AttestedCertifyInfo.Name.Digest.Value [nil-checked]"] := by decide
+    by design (`(*AttestedCredentialData).Marshal` checks its receiver).  (Stated without the names of variables: function, member path.) -/
+theorem optional_derefs_reviewed : Generated.Effects.unguardedOptionalDerefs =
+    ["webauthn.AuthenticatorData.Marshal: .AttestedCredentialData.Marshal"] := by decide
 
-/-- constant-index sites on slices (each behind a length check in the same function) -/
-theorem const_index_reviewed : Generated.Effects.constIndexSites = [
-  "fido.UnmarshalMetadataBLOBPayload: chains[0]",
-  "fido.UnmarshalMetadataBLOBPayload: chains[0][0]",
-  "webauthn.UnmarshalAuthenticatorData: raw[0]",
-  "webauthn.VerifyAndroidKeyAttestationStatement: certificates[0]",
-  "webauthn.VerifyAndroidSafetyNetAttestationStatement: chains[0]",
-  "webauthn.VerifyAndroidSafetyNetAttestationStatement: chains[0][0]",
-  "webauthn.VerifyAppleAttestationStatement: certificates[0]",
-  "webauthn.VerifyFIDOU2FAttestationStatement: certificates[0]",
-  "webauthn.VerifyPackedAttestationStatement: certificates[0]",
-  "webauthn.verifyAndroidSafetyNetCertificateChain: chains[0]",
-  "webauthn.verifyTPMAttestationStatementCertInfo: aikCerts[0]",
-  "webauthn.verifyTPMAttestationStatementCertificateRequirements: certificates[0]"] := by decide
+/-- every constant-index site on a slice is protected: a length check on the same expression returns earlier in the same function, the index
+    stands inside the `if` that made the check, or the slice was obtained from a call whose result is non-empty by that function's own check -/
+theorem const_index_reviewed : Generated.Effects.unguardedConstIndexSites = [] := by decide
 
 /-! ### the model always answers -/
 
